@@ -202,13 +202,40 @@ Proof.
   unfold is_dig. intros H. apply andb_prop in H. destruct H as [H _]. apply N.leb_le in H. apply N.eqb_neq. lia.
 Qed.
 
+(* what a view looks like after peeks up to absolute offset m - 1 *)
+Definition core_after (v : view) (m : N) : bytes * option N * N * N * bool * bool :=
+  (vS v, vfail v, vcur v, vmark v, vtaken v, vknown v || (nlen (vS v) <? m)).
+
+Lemma peeked_core v v' m : peeked_to v v' m -> core v' = core_after v m.
+Proof.
+  intros (a1 & a2 & a3 & a4 & a5 & _ & a7). unfold core, core_after. rewrite a1, a2, a3, a4, a5, a7. reflexivity.
+Qed.
+
+Lemma core_after_within v m : m <= nlen (vS v) -> core v = core_after v m.
+Proof.
+  intros H. unfold core, core_after. assert ((nlen (vS v) <? m) = false) as -> by (apply N.ltb_ge; exact H).
+  rewrite orb_false_r. reflexivity.
+Qed.
+
+Lemma core_after_basic v v' m : core v' = core_after v m -> vcur v' = vcur v /\ vS v' = vS v.
+Proof. unfold core, core_after. intros H. inversion H. split; reflexivity. Qed.
+
+(* how many bytes from the scan offset the signed scanner looks at (terminator included) *)
+Definition signed_look (l : bytes) : N :=
+  match l with
+  | b :: r =>
+      if b =? 45 then match digit_prefix r with [] => 2 | run => nlen run + 2 end
+      else nlen (digit_prefix l) + 1
+  | [] => 1
+  end.
+
 Lemma signed_ascii_digits_spec fuel t off v :
   ity_signed t = true ->
   (length (digit_prefix (rest_at v off)) < fuel)%nat ->
   (length (digit_prefix (rest_at v (off + 1))) < fuel)%nat ->
   exists v', srun (signed_ascii_digits fuel t off) v =
              ADone (fst (signed_spec t (rest_at v off)), off + snd (signed_spec t (rest_at v off))) v' /\
-             vcur v' = vcur v /\ vS v' = vS v.
+             peeked_to v v' (vcur v + off + signed_look (rest_at v off)).
 Proof.
   intros Hs Hf Hf1. unfold signed_ascii_digits. cbn [srun]. rewrite vpeek_rest.
   pose proof (peeked_after_peek v off) as Hp.
@@ -216,19 +243,21 @@ Proof.
   - (* end of input: positive loop *)
     destruct (digits_loop_spec fuel t false 0 false off (after_peek v off)) as (v' & Hrun & Hpk).
     { rewrite (rest_at_peeked _ _ _ _ Hp), E. cbn. lia. }
-    rewrite (rest_at_peeked _ _ _ _ Hp), E in Hrun. exists v'. split.
+    rewrite (rest_at_peeked _ _ _ _ Hp), E in Hrun, Hpk. exists v'. split.
     + rewrite Hrun. cbn [signed_spec unsigned_spec digit_prefix fst snd dfold fold_left dresult].
       unfold from_prim. rewrite in_range_0. reflexivity.
-    + destruct Hp as (a1 & _ & a3 & _). destruct Hpk as (b1 & _ & b3 & _). split; congruence.
+    + eapply peeked_weaken; [eapply peeked_trans; [exact Hp|exact Hpk]|].
+      change (vcur (after_peek v off)) with (vcur v). cbn [signed_look digit_prefix].
+      change (nlen (@nil byte)) with 0. lia.
   - destruct (b =? 45) eqn:Hb.
     + (* '-' *)
       cbn [srun]. rewrite vpeek_rest. rewrite (rest_at_peeked _ _ _ _ Hp). rewrite (rest_at_succ _ _ _ _ E).
       pose proof (peeked_after_peek (after_peek v off) (off + 1)) as Hp1.
       pose proof (peeked_trans _ _ _ _ _ Hp Hp1) as Hp2.
-      cbn [signed_spec]. rewrite Hb.
+      cbn [signed_spec signed_look]. rewrite Hb.
       destruct r as [|d r'] eqn:Er; cbn [digit_prefix].
       * eexists. cbn [srun fst snd]. rewrite N.add_0_r. split; [reflexivity|].
-        destruct Hp2 as (a1 & _ & a3 & _). split; assumption.
+        eapply peeked_weaken; [exact Hp2|]. change (vcur (after_peek v off)) with (vcur v). lia.
       * destruct (is_dig d) eqn:Hd.
         -- assert (Hin : in_range t (0 - Z.of_N (d - 48)) = true).
            { apply in_range_iff. unfold is_dig in Hd. apply andb_prop in Hd. destruct Hd as [H1 H2].
@@ -252,25 +281,27 @@ Proof.
                      intros _. split; [lia|]. rewrite <- Hin. f_equal; lia.
                  --- apply digit_prefix_all_digits.
               ** unfold nlen. cbn [length]. lia.
-           ++ destruct Hp2 as (a1 & _ & a3 & _). destruct Hpk as (b1 & _ & b3 & _). split; congruence.
+           ++ eapply peeked_weaken; [eapply peeked_trans; [exact Hp2|exact Hpk]|].
+              change (vcur v2) with (vcur v). change (vcur (after_peek v off)) with (vcur v).
+              unfold nlen. cbn [length]. lia.
         -- eexists. cbn [srun fst snd]. rewrite N.add_0_r. split; [reflexivity|].
-           destruct Hp2 as (a1 & _ & a3 & _). split; assumption.
+           eapply peeked_weaken; [exact Hp2|]. change (vcur (after_peek v off)) with (vcur v). lia.
     + (* no sign *)
       destruct (digits_loop_spec fuel t false 0 false off (after_peek v off)) as (v' & Hrun & Hpk).
       { rewrite (rest_at_peeked _ _ _ _ Hp), E. exact Hf. }
-      rewrite (rest_at_peeked _ _ _ _ Hp), E in Hrun. exists v'. split.
+      rewrite (rest_at_peeked _ _ _ _ Hp), E in Hrun, Hpk. exists v'. split.
       * rewrite Hrun. cbn [signed_spec]. rewrite Hb. unfold unsigned_spec. cbn [fst snd]. f_equal. f_equal.
         rewrite (dfold_exact t false (0%Z, false) 0%Z).
         -- change 0%Z with (Z.of_N 0). rewrite exact_fold_pos. reflexivity.
         -- unfold acc_inv; cbn [fst snd]. split; [lia|]. split; [intros _; split; [reflexivity|apply in_range_0]|discriminate].
         -- apply digit_prefix_all_digits.
-      * destruct Hp as (a1 & _ & a3 & _). destruct Hpk as (b1 & _ & b3 & _). split; congruence.
+      * eapply peeked_weaken; [eapply peeked_trans; [exact Hp|exact Hpk]|].
+        change (vcur (after_peek v off)) with (vcur v). cbn [signed_look]. rewrite Hb. lia.
 Qed.
 
 (* ---------- Theorem 3: the SWAR variants agree with the simple scanners ---------- *)
 From Flussab Require SwarProofs ReaderProofs.
 
-Definition BytesOK (v : view) : Prop := Forall (fun b => b < 256) (vS v).
 
 Lemma Forall_firstn {A} (P : A -> Prop) n l : Forall P l -> Forall P (firstn n l).
 Proof. revert l. induction n; intros l H; cbn; [constructor|]. destruct H; constructor; auto. Qed.
@@ -339,7 +370,7 @@ Lemma multi_fast_unsigned fuel t off v (r : ares (option Z * N)) :
          let value := from_prim t (Z.of_N value) in
          if md =? 8 then ascii_digits_cont fuel t false (off + 8) value else Ret (value, off + md)) v r ->
   exists v', r = ADone (fst (unsigned_spec t (rest_at v off)), off + snd (unsigned_spec t (rest_at v off))) v' /\
-             vcur v' = vcur v /\ vS v' = vS v.
+             core v' = core_after v (vcur v + off + nlen (digit_prefix (rest_at v off)) + 1).
 Proof.
   intros Hb Hlen Hf Hr. destruct (load8_is_rest v off Hlen) as [Hw Hl8].
   set (l := firstn 8 (rest_at v off)) in *.
@@ -370,12 +401,14 @@ Proof.
       * rewrite from_prim_dresult by (try (unfold sign_ok; lia); apply digit_prefix_all_digits).
         rewrite exact_fold_pos, Hpre, dec_val_app. reflexivity.
       * rewrite Hpre, nlen_app. unfold nlen at 2. rewrite Hl8. change (N.of_nat 8) with 8. lia.
-    + destruct Hpk as (b1 & _ & b3 & _). split; assumption.
+    + rewrite (peeked_core _ _ _ Hpk). f_equal. f_equal. rewrite Hpre, nlen_app. unfold nlen at 2. rewrite Hl8.
+      change (N.of_nat 8) with 8. lia.
   - apply N.eqb_neq in H8.
     assert (Hshort : (length (digit_prefix l) < 8)%nat).
     { pose proof (digit_prefix_le l). unfold nlen in H8. lia. }
     pose proof (digit_prefix_short 8 (rest_at v off) Hshort) as Hps. fold l in Hps. rewrite <- Hps in Hr.
-    inversion Hr; subst. exists v. repeat split.
+    apply aruns_ret_inv in Hr. rewrite Hr. exists v. split; [reflexivity|].
+    apply core_after_within. rewrite Hps. unfold nlen in *. lia.
 Qed.
 
 Theorem ascii_digits_multi_spec fuel t off v r :
@@ -383,21 +416,21 @@ Theorem ascii_digits_multi_spec fuel t off v r :
   (length (digit_prefix (rest_at v off)) < fuel)%nat ->
   aruns (ascii_digits_multi fuel t off) v r ->
   exists v', r = ADone (fst (unsigned_spec t (rest_at v off)), off + snd (unsigned_spec t (rest_at v off))) v' /\
-             vcur v' = vcur v /\ vS v' = vS v.
+             core v' = core_after v (vcur v + off + nlen (digit_prefix (rest_at v off)) + 1).
 Proof.
   intros Hwf Hb Hf Hr. unfold ascii_digits_multi in Hr. inversion Hr; subst.
   match goal with H : tryload_ok _ _ ?o |- _ => destruct o as [w|]; cbn [tryload_ok] in H; rename H into Hok end.
   - (* fast path *)
     destruct Hok as [Hlen ->].
     match goal with H : aruns _ (v_loaded v off _) r |- _ => rename H into Hc end.
-    destruct (multi_fast_unsigned fuel t off (v_loaded v off (Some (word_at v off))) r) as (v' & H1 & H2 & H3); auto.
-    exists v'. split; [exact H1|split; assumption].
+    destruct (multi_fast_unsigned fuel t off (v_loaded v off (Some (word_at v off))) r) as (v' & H1 & H2); auto.
+    exists v'. split; [exact H1|exact H2].
   - (* cold path: the simple scanner *)
     match goal with H : aruns _ (v_loaded v off None) r |- _ => rename H into Hc end.
     unfold ascii_digits in Hc. rewrite (det_aruns _ _ _ Hc (det_digits_loop _ _ _ _ _ _)).
     destruct (ascii_digits_spec fuel t off (v_loaded v off None)) as (v' & H1 & H2); [exact Hf|].
     unfold ascii_digits in H1. exists v'. split; [exact H1|].
-    destruct H2 as (b1 & _ & b3 & _). split; assumption.
+    exact (peeked_core _ _ _ H2).
 Qed.
 
 (* ---------- the signed fast path ---------- *)
@@ -428,6 +461,14 @@ Proof.
   reflexivity.
 Qed.
 
+Lemma signed_look_minus b r :
+  (b =? 45) = true ->
+  signed_look (b :: r) = if nlen (digit_prefix r) =? 0 then 2 else nlen (digit_prefix r) + 2.
+Proof.
+  intros H. cbn [signed_look]. rewrite H. destruct (digit_prefix r) as [|d ds]; [reflexivity|].
+  assert ((nlen (d :: ds) =? 0) = false) as -> by (apply N.eqb_neq; unfold nlen; cbn [length]; lia). reflexivity.
+Qed.
+
 Lemma signed_spec_plain t l :
   match l with b :: _ => (b =? 45) = false | [] => True end -> signed_spec t l = unsigned_spec t l.
 Proof. destruct l as [|b r]; intros H; cbn [signed_spec]; [reflexivity|]. rewrite H. reflexivity. Qed.
@@ -451,7 +492,7 @@ Lemma multi_fast_signed fuel t off v (r : ares (option Z * N)) :
            if md =? 8 then ascii_digits_cont fuel t false (off + 8) value
            else Ret (value, off + md)) v r ->
   exists v', r = ADone (fst (signed_spec t (rest_at v off)), off + snd (signed_spec t (rest_at v off))) v' /\
-             vcur v' = vcur v /\ vS v' = vS v.
+             core v' = core_after v (vcur v + off + signed_look (rest_at v off)).
 Proof.
   intros Hb Hlen Hf Hf1 Hr. cbv zeta in Hr.
   destruct (load8_is_rest v off Hlen) as [Hw Hl8].
@@ -502,12 +543,18 @@ Proof.
         -- rewrite from_prim_dresult by (try (unfold sign_ok; unfold bytes, byte in *; lia); apply digit_prefix_all_digits).
            rewrite exact_fold_neg, dec_val_app. reflexivity.
         -- rewrite nlen_app. unfold nlen at 2. rewrite H7. change (N.of_nat 7) with 7. (unfold bytes, byte in *; unfold bytes, byte in *; lia).
-      * destruct Hpk as (b1 & _ & b3 & _). split; assumption.
+      * rewrite (peeked_core _ _ _ Hpk). f_equal. rewrite (signed_look_minus b0 rst H45).
+        unfold bytes, byte in *. rewrite Hpre, nlen_app.
+        match goal with |- context [if ?c then _ else _] => destruct c eqn:Ec end.
+        { apply N.eqb_eq in Ec. unfold nlen in Ec. lia. }
+        unfold nlen at 2. lia.
     + apply N.eqb_neq in Hm7.
       assert (Hshort : (length (digit_prefix (firstn 7 rst)) < 7)%nat).
       { pose proof (digit_prefix_le (firstn 7 rst)). unfold nlen in Hm7. (unfold bytes, byte in *; unfold bytes, byte in *; lia). }
       pose proof (digit_prefix_short 7 rst Hshort) as Hps. unfold bytes, byte in *. rewrite <- Hps in Hr.
-      apply aruns_ret_inv in Hr. rewrite Hr. exists v. split; [|split; reflexivity].
+      apply aruns_ret_inv in Hr. rewrite Hr. exists v. split.
+      2: { apply core_after_within. rewrite (signed_look_minus b0 rst H45). unfold bytes, byte in *.
+           rewrite Hps. destruct (@nlen N (digit_prefix (firstn 7 rst)) =? 0); unfold nlen in *; lia. }
       unfold bytes, byte in *. destruct (@nlen N (digit_prefix rst) =? 0) eqn:Edp.
       * apply N.eqb_eq in Edp. assert (digit_prefix rst = []) as -> by (apply ReaderProofs.nlen_zero_nil; exact Edp).
         unfold dec_val. cbn [fold_left fst snd]. change (- Z.of_N 0)%Z with 0%Z.
@@ -520,7 +567,7 @@ Proof.
                          if md =? 8 then ascii_digits_cont fuel t false (off + 8) value else Ret (value, off + md)) v r).
     { rewrite Hw. exact Hr. }
     destruct (multi_fast_unsigned fuel t off v r Hb Hlen) as (v' & H1 & H2); [rewrite Erest; exact Hf|exact Hr'|].
-    rewrite Erest in H1. exists v'. split; assumption.
+    rewrite Erest in H1, H2. exists v'. split; [exact H1|]. rewrite H2. cbn [signed_look]. rewrite H45. f_equal. lia.
 Qed.
 
 Theorem signed_ascii_digits_multi_spec fuel t off v r :
@@ -529,14 +576,14 @@ Theorem signed_ascii_digits_multi_spec fuel t off v r :
   (length (digit_prefix (rest_at v (off + 1))) < fuel)%nat ->
   aruns (signed_ascii_digits_multi fuel t off) v r ->
   exists v', r = ADone (fst (signed_spec t (rest_at v off)), off + snd (signed_spec t (rest_at v off))) v' /\
-             vcur v' = vcur v /\ vS v' = vS v.
+             core v' = core_after v (vcur v + off + signed_look (rest_at v off)).
 Proof.
   intros Hs Hwf Hb Hf Hf1 Hr. unfold signed_ascii_digits_multi in Hr. inversion Hr; subst.
   match goal with H : tryload_ok _ _ ?o |- _ => destruct o as [w|]; cbn [tryload_ok] in H; rename H into Hok end.
   - destruct Hok as [Hlen ->].
     match goal with H : aruns _ (v_loaded v off _) r |- _ => rename H into Hc end.
-    destruct (multi_fast_signed fuel t off (v_loaded v off (Some (word_at v off))) r) as (v' & H1 & H2 & H3); auto.
-    exists v'. split; [exact H1|split; assumption].
+    destruct (multi_fast_signed fuel t off (v_loaded v off (Some (word_at v off))) r) as (v' & H1 & H2); auto.
+    exists v'. split; [exact H1|exact H2].
   - (* cold path: the simple signed scanner; it has no buffering question either *)
     match goal with H : aruns _ (v_loaded v off None) r |- _ => rename H into Hc end.
     assert (Hdet : det (signed_ascii_digits fuel t off)).
@@ -545,6 +592,6 @@ Proof.
       cbn [det]. intros [d|]; [|exact I]. destruct (is_dig d); [|exact I].
       destruct (in_range t (0 - Z.of_N (d - 48))); [apply det_digits_loop|exact I]. }
     rewrite (det_aruns _ _ _ Hc Hdet).
-    destruct (signed_ascii_digits_spec fuel t off (v_loaded v off None) Hs Hf Hf1) as (v' & H1 & H2 & H3).
-    exists v'. split; [exact H1|split; assumption].
+    destruct (signed_ascii_digits_spec fuel t off (v_loaded v off None) Hs Hf Hf1) as (v' & H1 & H2).
+    exists v'. split; [exact H1|exact (peeked_core _ _ _ H2)].
 Qed.
